@@ -244,11 +244,14 @@ def check_neighbours(ctx: Ctx):
     prog = ctx.prog
     header = header_row()
     ev = agg_class(prog).lookup("evaluate")
-    for nm, pa, pb in (("a/b", "/d/a.tsv", "/d/b.tsv"), ("two-dot siblings", "/d/scores.v1.tsv", "/d/scores.v2.tsv"), ("prefix", "/d/run.tsv", "/d/run_panoptica_aggregator_tmp.tsv"[:-4] + "x.tsv"), ("singular/plural", "/d/result.tsv", "/d/results.tsv"), ("one more letter of the extension", "/d/stat.tsv", "/d/statt.tsv"), ("upper/lower case", "/d/Run.tsv", "/d/run.tsv")):
+    for nm, pa, pb in (("a/b", "/d/a.tsv", "/d/b.tsv"), ("two-dot siblings", "/d/scores.v1.tsv", "/d/scores.v2.tsv"), ("prefix", "/d/run.tsv", "/d/run_panoptica_aggregator_tmp.tsv"[:-4] + "x.tsv"), ("singular/plural", "/d/result.tsv", "/d/results.tsv"), ("one more letter of the extension", "/d/stat.tsv", "/d/statt.tsv"), ("upper/lower case", "/d/Run.tsv", "/d/run.tsv"), ("same stem, other extension?", "/d/run.tsv", "/d/run.csv"), ("same stem, other extension (txt)?", "/d/run.tsv", "/d/run.txt")):
+        optional = nm.endswith("?")
         fs = FS()
         A, oa, ia = new_session(prog, fs, pa)
         B, ob, ib = new_session(prog, fs, pb)
         base = f"{ev.qual}:neighbours={nm}"
+        if optional and (A is None or B is None):
+            continue  # a file name this version does not accept as an output file (another extension): nothing to compare
         if A is None or B is None:
             ctx.violated("R17.1", ev, None, base, "two aggregators on sibling output files cannot be constructed")
             continue
